@@ -296,6 +296,11 @@ impl Prop for C09 {
             // X.683 8.3: a dummy reference hides a definition of the same name
             let shadow = format!("{pool} {{ INTEGER:max }} ::= INTEGER (0..max)");
             push("parameterized", format!("parameterized|names={pool}|form=dummy-hides-module-value"), vec!["max INTEGER ::= 99".into(), shadow.clone(), format!("Mid ::= {pool} {{ 5 }}")], vec!["max INTEGER ::= 99".into(), "Mid ::= INTEGER (0..5)".into()], vec!["Mid"]);
+            // ... every dummy reference of the list, not only the first (both names are also module values)
+            let shadow2 = format!("{pool} {{ INTEGER:lo, INTEGER:hi }} ::= INTEGER (lo..hi)");
+            push("parameterized", format!("parameterized|names={pool}|form=two-dummies-hide-module-values"), vec!["lo INTEGER ::= 1".into(), "hi INTEGER ::= 10".into(), shadow2.clone(), format!("Mid ::= {pool} {{ -5, 300 }}")], vec!["lo INTEGER ::= 1".into(), "hi INTEGER ::= 10".into(), "Mid ::= INTEGER (-5..300)".into()], vec!["Mid"]);
+            let shadow3 = format!("{pool} {{ INTEGER:lo, INTEGER:hi }} ::= SEQUENCE {{ f INTEGER (lo..hi), g SEQUENCE OF INTEGER (0..hi) }}");
+            push("parameterized", format!("parameterized|names={pool}|form=two-dummies-hide-module-values-component"), vec!["lo INTEGER ::= 1".into(), "hi INTEGER ::= 10".into(), shadow3.clone(), format!("Mid ::= {pool} {{ 0, 70000 }}")], vec!["lo INTEGER ::= 1".into(), "hi INTEGER ::= 10".into(), "Mid ::= SEQUENCE { f INTEGER (0..70000), g SEQUENCE OF INTEGER (0..70000) }".into()], vec!["Mid"]);
             let shadow_t = format!("{pool} {{ Tgt }} ::= SEQUENCE {{ v Tgt }}");
             push("parameterized", format!("parameterized|names={pool}|form=dummy-hides-module-type"), vec!["Tgt ::= INTEGER (0..7)".into(), shadow_t.clone(), format!("Mid ::= {pool} {{ BOOLEAN }}")], vec!["Tgt ::= INTEGER (0..7)".into(), "Mid ::= SEQUENCE { v BOOLEAN }".into()], vec!["Mid"]);
             let tagged = format!("{pool} {{ T }} ::= [APPLICATION 9] SEQUENCE {{ v T }}");
